@@ -975,13 +975,24 @@ async def op_nop(env, ctx, step):
     return None
 
 
+async def op_try(env, ctx, step):
+    """run the body, catch (only) exceptions raised by program code"""
+    try:
+        await run_steps(env, ctx, step['body'])
+    except BaseException as exc:  # noqa: B902
+        if env.is_own(exc):
+            return exc_name(exc)
+        raise
+    return None
+
+
 HANDLERS = {
     'wait': op_wait, 'setflag': op_setflag, 'settracked': op_settracked, 'lock': op_lock,
     'put': op_put, 'get': op_get, 'iter': op_iter, 'close': op_close,
     'borrow': op_borrow, 'resource': op_resource, 'transfer': op_transfer,
     'scope': op_scope, 'spawn': op_spawn, 'cancel': op_cancel, 'await_task': op_await_task,
     'raise': op_raise, 'ticker': op_ticker, 'collect': op_collect, 'first': op_first,
-    'nop': op_nop,
+    'nop': op_nop, 'try': op_try,
 }
 
 
